@@ -30,7 +30,7 @@ type Engine struct {
 	byTarget map[*ssa.Function]*Contract
 	targetOf map[*Contract]*ssa.Function
 	typeTags map[string]int
-	bounds   map[*ssa.Parameter]*Term
+	bounds   map[boundKey]*Term
 	typeByString map[string]types.Type
 	tables   map[string]*Term
 	tableVals map[string][]int64
@@ -42,7 +42,7 @@ type Engine struct {
 func newEngine(repo, mirror string) *Engine {
 	return &Engine{repo: repo, mirror: mirror, pkgs: map[string]*ssa.Package{}, lpkgs: map[string]*packages.Package{}, astFiles: map[string]*ast.File{},
 		finfo: map[*ssa.Function]*FuncInfo{}, strLits: map[string]*Term{}, strArr: map[string]*Term{}, byTarget: map[*ssa.Function]*Contract{},
-		targetOf: map[*Contract]*ssa.Function{}, bounds: map[*ssa.Parameter]*Term{}, typeTags: map[string]int{}, typeByString: map[string]types.Type{}, tables: map[string]*Term{}, maxDepth: 8, genSrc: map[string]string{}}
+		targetOf: map[*Contract]*ssa.Function{}, bounds: map[boundKey]*Term{}, typeTags: map[string]int{}, typeByString: map[string]types.Type{}, tables: map[string]*Term{}, maxDepth: 8, genSrc: map[string]string{}}
 }
 
 var errLineRe = regexp.MustCompile(`^(.*vc_[a-z0-9_]+_verif\.go):(\d+)`)
@@ -201,12 +201,18 @@ func (e *Engine) genFunc(c *Contract, suffix string) *ssa.Function {
 
 // boundFor returns the canonical bound variable of a quantifier closure parameter, so that repeated
 // evaluations of the same spec expression give identical (hash-consed) quantified terms.
+type boundKey struct {
+	p    *ssa.Parameter
+	mode int
+}
+
 func (e *Engine) boundFor(p *ssa.Parameter, s *Sort) *Term {
-	if t, ok := e.bounds[p]; ok {
+	k := boundKey{p, floatMode}
+	if t, ok := e.bounds[k]; ok {
 		return t
 	}
 	t := BoundVar(p.Name(), s)
-	e.bounds[p] = t
+	e.bounds[k] = t
 	return t
 }
 
@@ -261,7 +267,16 @@ type Unit struct {
 
 func (e *Engine) newCtx(name string, ct *Contract) *Ctx {
 	c := &Ctx{eng: e, unitName: name, contract: ct, nameCount: map[string]int{}, opaque: map[string]int{}, budget: 4000,
-		cellSort: map[int]*Sort{}, globalsWritten: map[string]bool{}, ghosts: map[string]Val{}, wfDone: map[*Term]bool{}, sliceTerms: map[*Term]bool{}}
+		cellSort: map[int]*Sort{}, globalsWritten: map[string]bool{}, ghosts: map[string]Val{}, wfDone: map[*Term]bool{}, aliveDone: map[[2]*Term]bool{}, sliceTerms: map[*Term]bool{}}
+	floatMode = 0
+	if ct != nil {
+		switch {
+		case ct.Flags["fp"] != "":
+			floatMode = 2
+		case ct.Flags["fpcmp"] != "":
+			floatMode = 1
+		}
+	}
 	c.alive0 = FreshVar("alive0", SArray(SRef, SBool))
 	c.assume(Not(Select(c.alive0, BVLit(0, 64))))
 	if ct != nil && ct.Flags["fp"] != "" {
